@@ -1,9 +1,569 @@
-"""C05 placeholder (being built)"""
-RULE = ""
-ASSUMPTIONS = []
+"""C05 directional estimators: valid distributions, energy round trip, batch independence, metadata.
+
+Also holds the generators shared with C06 (moments of von-Mises mixtures, noisy / unrealisable
+quadruples, grids, batch layouts)."""
+import math
+
+import common as C
+
+try:                                    # the harness runs under /venv python (scipy present)
+    from scipy.special import ive as _ive
+except Exception:                       # pragma: no cover
+    _ive = None
+
+RULE = ("one evaluation = one (estimator variant, direction grid, moment quadruple) entry or one function-level "
+        "call (MEM closed form, MEM2 distribution, direction increments) or one spectrum object round trip; "
+        "non-trivial = finite moments that are not all zero with a1^2+b1^2 < 1; distinct by (variant, N, moments) hash")
+ASSUMPTIONS = [
+    "floating point rounding is not modelled: MEM is compared at 1e-8 relative to the peak (1e-5 when the model's "
+    "conditioning estimate exceeds 1e9), MEM2-approximate and the MEM2 distribution at 1e-9..1e-10, Newton at 1e-7 when every "
+    "branch of the modelled iteration has a relative margin > 1e-6 (otherwise a branch is decided within rounding and only "
+    "the validity oracles apply; such entries are counted in evidence)",
+    "scipy.optimize.root(method='lm') and np.linalg.lstsq (SVD) are not modelled; on their outputs only the "
+    "consequence of theorem mem2_dist_valid (non-negative, unit integral) is checked by execution",
+    "'returned without raising' is a statement about numba's runtime; it is decided by execution only",
+]
+
+HARD = [[0.557185, -0.795699, -0.305963, -0.884653],
+        [-0.564027, -0.505376, -0.231672, 0.471163],
+        [-0.533724, 0.751711, -0.27957, -0.808407],
+        [0.458456, -0.848485, -0.515151, -0.753666],
+        [0.458456 + 0.06, -0.848485, -0.515151, -0.753666]]
+
+NS_ALL = [8, 9, 10, 12, 15, 16, 18, 20, 24, 30, 32, 36, 40, 45, 48, 60, 64, 72, 90, 100, 120, 128, 144, 150, 180]
+
+
+# ---------------------------------------------------------------------------------------
+# generators
+# ---------------------------------------------------------------------------------------
+def bessel_ratios(kappa):
+    """I1/I0 and I2/I0 of the von Mises distribution"""
+    if _ive is not None:
+        i0 = _ive(0, kappa)
+        return float(_ive(1, kappa) / i0), float(_ive(2, kappa) / i0)
+    # fallback: direct quadrature
+    n = 20000
+    s0 = s1 = s2 = 0.0
+    for i in range(n):
+        t = 2 * math.pi * i / n
+        w = math.exp(kappa * (math.cos(t) - 1))
+        s0 += w; s1 += w * math.cos(t); s2 += w * math.cos(2 * t)
+    return s1 / s0, s2 / s0
+
+
+def vm_moments(mu, sigma_deg):
+    kappa = 1.0 / math.radians(sigma_deg) ** 2
+    r1, r2 = bessel_ratios(kappa)
+    return [r1 * math.cos(mu), r1 * math.sin(mu), r2 * math.cos(2 * mu), r2 * math.sin(2 * mu)]
+
+
+def mix(ws, ms):
+    return [sum(w * m[i] for w, m in zip(ws, ms)) for i in range(4)]
+
+
+def circ_spread_deg(m):
+    """circular spread sqrt(2(1-r1)) in degrees"""
+    r = math.hypot(m[0], m[1])
+    return math.degrees(math.sqrt(max(0.0, 2 * (1 - r))))
+
+
+def gen_moments(rng, kind=None, min_sigma=2.0):
+    """-> (kind, [a1,b1,a2,b2]); always finite with a1^2+b1^2 < 1"""
+    kind = kind or rng.choice(["iso", "uni", "uni", "bi", "bi", "narrow", "noisy", "noisy", "random", "edge_r"])
+    lobe_sigma = lambda: 10 ** rng.uniform(math.log10(min_sigma), math.log10(80))
+    w0 = rng.choice([0.0, 0.0, rng.uniform(0, 0.5)])
+    if kind == "iso":
+        m = [rng.choice([0.0, rng.uniform(-1e-3, 1e-3)]) for _ in range(4)]
+    elif kind == "uni":
+        m = mix([1 - w0], [vm_moments(rng.uniform(0, 2 * math.pi), lobe_sigma())])
+    elif kind == "bi":
+        w = rng.uniform(0.2, 0.8)
+        m = mix([(1 - w0) * w, (1 - w0) * (1 - w)],
+                [vm_moments(rng.uniform(0, 2 * math.pi), lobe_sigma()) for _ in range(2)])
+    elif kind == "narrow":
+        m = vm_moments(rng.uniform(0, 2 * math.pi), rng.uniform(min_sigma, 5))
+    elif kind == "noisy":
+        m = mix([1 - w0], [vm_moments(rng.uniform(0, 2 * math.pi), lobe_sigma())])
+        s = rng.choice([0.01, 0.05, 0.1])
+        m = [v + rng.gauss(0, s) for v in m]
+    elif kind == "random":
+        r = math.sqrt(rng.random()) * 0.98
+        a = rng.uniform(0, 2 * math.pi)
+        m = [r * math.cos(a), r * math.sin(a), rng.uniform(-1, 1), rng.uniform(-1, 1)]
+    elif kind == "edge_r":
+        r = 1 - 10 ** rng.uniform(-6, -2)
+        a = rng.uniform(0, 2 * math.pi)
+        r2 = rng.uniform(0, 1)
+        b = 2 * a + rng.gauss(0, 0.05)
+        m = [r * math.cos(a), r * math.sin(a), r2 * math.cos(b), r2 * math.sin(b)]
+    else:
+        raise ValueError(kind)
+    while m[0] ** 2 + m[1] ** 2 >= 0.999999:
+        m = [v * 0.95 for v in m]
+    m = [max(-1.5, min(1.5, v)) for v in m]
+    return kind, [float(v) for v in m]
+
+
+def grid_deg(n, offset=0.0):
+    """np.linspace(0, 360, n, endpoint=False) (+ offset) exactly as numpy computes it"""
+    step = 360.0 / n
+    return [i * step + offset for i in range(n)]
+
+
+def to_rad(dirs):
+    j = math.pi / 180
+    return [d * j for d in dirs]
+
+
+def rot_moments(m, alpha):
+    c, s, c2, s2 = math.cos(alpha), math.sin(alpha), math.cos(2 * alpha), math.sin(2 * alpha)
+    return [m[0] * c - m[1] * s, m[0] * s + m[1] * c, m[2] * c2 - m[3] * s2, m[2] * s2 + m[3] * c2]
+
+
+def mirror_moments(m):
+    return [m[0], -m[1], m[2], -m[3]]
+
+
+def moments_of(D, dirs_deg, step):
+    th = to_rad(dirs_deg)
+    return [sum(math.cos(t) * v for t, v in zip(th, D)) * step, sum(math.sin(t) * v for t, v in zip(th, D)) * step,
+            sum(math.cos(2 * t) * v for t, v in zip(th, D)) * step,
+            sum(math.sin(2 * t) * v for t, v in zip(th, D)) * step]
+
+
+def norm(v):
+    return math.sqrt(sum(x * x for x in v))
+
+
+def fl(xs):
+    return [C.fx(v) for v in xs]
+
+
+def unfl(xs):
+    return [C.unfx(v) for v in xs]
+
+
+VARIANTS = [("mem", None, "mem"), ("mem2", "newton", "newton"), ("mem2", "scipy", None), ("mem2", "approximate", "approx")]
+
+
+def validity(D, n, tol=1e-9):
+    """the property's statement for one returned row (units 1/degree): finite, >= 0, integral 1"""
+    if any(math.isnan(v) or math.isinf(v) for v in D):
+        return "non-finite value in the distribution"
+    mn = min(D)
+    if mn < 0:
+        return "negative value %r" % mn
+    integ = sum(D) * 360.0 / n
+    if abs(integ - 1) > tol:
+        return "integral over the circle is %r" % integ
+    return None
+
+
+# ---------------------------------------------------------------------------------------
 def run(ctx):
-    pass
+    rng = ctx.rng
+    cases = []      # implementation cases
+    mlines = []     # model request lines
+    post = []       # (kind, data...) closures evaluated after both runs
+
+    def add(case, lines):
+        i = len(cases); cases.append(case)
+        j = len(mlines); mlines.extend(lines)
+        return i, j
+
+    # ---------------- 1. direction increments -------------------------------------------
+    for q in range(ctx.n(30, 300)):
+        n = rng.choice(NS_ALL + [rng.randint(8, 180)])
+        kindg = rng.choice(["linspace", "linspace", "offset", "nonuniform"])
+        if kindg == "linspace":
+            dirs = grid_deg(n)
+        elif kindg == "offset":
+            dirs = grid_deg(n, C.dyadic(rng, -180, 180, 10))
+        else:
+            cuts = sorted(rng.uniform(0, 360) for _ in range(n))
+            dirs = cuts
+            if min((b - a) for a, b in zip(cuts, cuts[1:] + [cuts[0] + 360])) < 1e-3:
+                dirs = grid_deg(n)
+                kindg = "linspace"
+        th = to_rad(dirs)
+        i, j = add({"op": "incru", "th": fl(th)}, ["incru " + C.flist(th), "incrn " + C.flist(th)])
+        post.append(("incr", i, j, kindg, n, th))
+
+    # ---------------- 2. MEM closed form -------------------------------------------------
+    for q in range(ctx.n(150, 3000)):
+        n = rng.choice(NS_ALL + [rng.randint(8, 180)])
+        off = rng.choice([0.0, 0.0, C.dyadic(rng, -180, 180, 10)])
+        th = to_rad(grid_deg(n, off))
+        if q < 5:
+            kind, m = "hard", HARD[q]
+        else:
+            kind, m = gen_moments(rng)
+        i, j = add({"op": "mem", "th": fl(th), "m": fl(m)}, ["mem %s %s" % (C.flist(th), " ".join(fl(m)))])
+        post.append(("mem", i, j, kind, n, th, m))
+
+    # ---------------- 3. MEM2 distribution for arbitrary multipliers ---------------------
+    for q in range(ctx.n(150, 3000)):
+        n = rng.choice(NS_ALL + [rng.randint(8, 180)])
+        th = to_rad(grid_deg(n, rng.choice([0.0, C.dyadic(rng, -180, 180, 10)])))
+        mag = 10 ** rng.uniform(-3, rng.choice([1, 2, 3, 4]))
+        lam = [C.dyadic(rng, -mag, mag, 20) for _ in range(4)]
+        if rng.random() < 0.1:
+            lam[rng.randrange(4)] = 0.0
+        if rng.random() < 0.7:
+            d = [2 * math.pi / n] * n
+            dk = "uniform"
+        else:
+            d = [C.dyadic(rng, 0.01, 0.2, 12) for _ in range(n)]
+            dk = "random-positive"
+        i, j = add({"op": "dist", "l": fl(lam), "d": fl(d), "th": fl(th)},
+                   ["dist %s %s %s" % (" ".join(fl(lam)), C.flist(d), C.flist(th))])
+        post.append(("dist", i, j, dk, n, th, lam, d))
+
+    # ---------------- 4. estimate_directional_distribution on batches --------------------
+    nb = ctx.n(14, 220)
+    for q in range(nb):
+        n = rng.choice(NS_ALL + [rng.randint(8, 180)])
+        dirs = grid_deg(n)
+        shape = rng.choice([(rng.randint(1, 6),), (rng.randint(1, 4), rng.randint(1, 5)),
+                            (rng.randint(1, 3), rng.randint(1, 3), rng.randint(1, 4)), (1,), (1, 1), (2, 1, 1)])
+        npt = 1
+        for s in shape:
+            npt *= s
+        if npt > 24:
+            shape = (shape[-1],); npt = shape[0]
+        entries = []
+        for e in range(npt):
+            if q == 0 and e < 5:
+                entries.append(("hard", HARD[e]))
+            elif rng.random() < 0.04:
+                m = gen_moments(rng)[1]
+                m[rng.randrange(4)] = float("nan")
+                entries.append(("nan", m))
+            else:
+                entries.append(gen_moments(rng))
+        cols = [[m[k] for _, m in entries] for k in range(4)]
+        for method, sm, mv in VARIANTS:
+            case = {"op": "est", "method": method, "sm": sm, "dirs": fl(dirs), "shape": list(shape),
+                    "a1": fl(cols[0]), "b1": fl(cols[1]), "a2": fl(cols[2]), "b2": fl(cols[3]), "single": True}
+            lines = []
+            if mv is not None:
+                for _, m in entries:
+                    lines.append("entry %s %s %s" % (mv, C.flist(dirs), " ".join(fl(m))))
+                    if mv == "newton":
+                        lines.append("entryn %s %s" % (C.flist(dirs), " ".join(fl(m))))
+            i, j = add(case, lines)
+            post.append(("est", i, j, method, sm, mv, n, dirs, shape, entries))
+
+    # ---------------- 5. spectrum objects: 1D -> 2D -> 1D -------------------------------
+    for q in range(ctx.n(8, 80)):
+        n = rng.choice([8, 12, 24, 36, 36, 72, rng.randint(8, 120)])
+        lead = rng.choice([(), (rng.randint(1, 3),), (rng.randint(1, 2), rng.randint(1, 3))])
+        nf = rng.randint(2, 6)
+        shape = tuple(lead) + (nf,)
+        npt = 1
+        for s in lead:
+            npt *= s
+        f = [0.05 + 0.03 * k + (0.01 if (k % 2 and q % 2) else 0.0) for k in range(nf)]
+        e = [C.dyadic(rng, 0.0, 5.0, 12) for _ in range(npt * nf)]
+        if rng.random() < 0.3:
+            e[rng.randrange(len(e))] = 0.0
+        ent = [gen_moments(rng, rng.choice(["uni", "bi", "noisy", "iso", "narrow"]))[1] for _ in range(npt * nf)]
+        cols = [[m[k] for m in ent] for k in range(4)]
+        meta = {"time": ["2021-03-%02dT%02d:00:00" % (1 + rng.randrange(28), rng.randrange(24)) for _ in range(max(1, lead[0] if lead else 1))],
+                "latitude": fl([C.dyadic(rng, -80, 80, 12) for _ in range(npt)]),
+                "longitude": fl([C.dyadic(rng, -180, 180, 12) for _ in range(npt)]),
+                "depth": fl([rng.choice([float("inf"), C.dyadic(rng, 5, 4000, 10)]) for _ in range(npt)])}
+        meta["time"] = sorted(set(meta["time"]))
+        while len(meta["time"]) < (lead[0] if lead else 1):
+            meta["time"].append("2021-04-%02dT00:00:00" % (len(meta["time"]) + 1))
+        method, sm, mv = rng.choice(VARIANTS)
+        case = {"op": "spec", "method": method, "sm": sm, "n": n, "shape": list(shape), "f": fl(f), "e": fl(e),
+                "a1": fl(cols[0]), "b1": fl(cols[1]), "a2": fl(cols[2]), "b2": fl(cols[3]), "meta": meta}
+        i, j = add(case, [])
+        post.append(("spec", i, j, method, sm, n, shape, f, e, ent, meta))
+
+    impl = ctx.impl("C05.py", {"cases": cases})["results"]
+    mod = ctx.model(mlines)
+    evaluate(ctx, post, impl, mod)
+
+
+def err_of(r):
+    return isinstance(r, dict) and "error" in r
+
+
+def evaluate(ctx, post, impl, mod):
+    for item in post:
+        kind = item[0]
+        if kind == "incr":
+            _, i, j, kindg, n, th = item
+            ctx.count(["incr", kindg, n, th[:3]])
+            ctx.tally("increments:" + kindg)
+            rep = {"op": "get_direction_increment", "directions_radians": th}
+            im = impl[i]
+            if err_of(im):
+                ctx.oracle_fail("get_direction_increment raised %s" % im, rep)
+                continue
+            got = unfl(im)
+            mu = unfl(mod[j][1:]); mn = unfl(mod[j + 1][1:])
+            for a, b, c in zip(got, mu, mn):
+                if not C.close(a, b, 1e-9, 1e-12, 1.0):
+                    ctx.disagree("direction increment %r differs from the midpoint rule %r" % (a, b), rep,
+                                 is_property_failure=True)
+                    break
+                if not C.close(b, c, 1e-9, 1e-12, 1.0):
+                    ctx.disagree("model: newton and utils increments differ (%r, %r)" % (b, c), rep)
+                    break
+            if abs(sum(got) - 2 * math.pi) > 1e-9:
+                ctx.oracle_fail("direction increments do not sum to 2 pi: %r" % sum(got), rep)
+            if kindg != "nonuniform" and any(abs(v - 2 * math.pi / n) > 1e-9 for v in got):
+                ctx.oracle_fail("uniform grid: increment differs from 2 pi / N", rep)
+        elif kind == "mem":
+            _, i, j, mk, n, th, m = item
+            ctx.count(["mem", n, m], any(m))
+            ctx.tally("mem-fn:" + mk)
+            rep = {"op": "mem._mem / mem.numba_mem", "directions_radians": th, "moments": m, "kind": mk}
+            im = impl[i]
+            if err_of(im):
+                ctx.oracle_fail("_mem raised %s" % im, rep)
+                continue
+            mo = mod[j]
+            for which in ("numpy", "numba"):
+                r = im[which]
+                if err_of(r):
+                    ctx.oracle_fail("mem (%s) raised %s" % (which, r), rep)
+                    continue
+                D = unfl(r)
+                bad = validity([v * math.pi / 180 for v in D], n)
+                if bad:
+                    ctx.oracle_fail("mem (%s): %s" % (which, bad), rep)
+                if mo[0] == "N":
+                    ctx.tally("mem-fn:model-guard")
+                    continue
+                k = int(mo[1])
+                want = unfl(mo[2:2 + k])
+                cond = C.unfx(mo[2 + k]) + C.unfx(mo[3 + k])
+                # measured: |impl - model| / max(model) <= 8e-12 for cond up to 1e13 (the estimate is pessimistic)
+                if math.isnan(cond) or cond > 1e13:
+                    ctx.tally("mem-fn:ill-conditioned-skipped")
+                    continue
+                tol = 1e-8 if cond < 1e9 else 1e-5
+                sc = max(abs(v) for v in want)
+                badj = [q for q in range(n) if not C.close(D[q], want[q], tol, 1e-300, sc)]
+                if badj:
+                    q = badj[0]
+                    rep2 = dict(rep, index=q, impl=D[q], model=want[q], cond=cond, which=which)
+                    ctx.disagree("MEM (%s) differs from the closed form at direction %d: %r vs %r" % (which, q, D[q], want[q]),
+                                 rep2, is_property_failure=True)
+        elif kind == "dist":
+            _, i, j, dk, n, th, lam, d = item
+            ctx.count(["dist", n, lam, d[:2]])
+            ctx.tally("mem2-dist:" + dk)
+            rep = {"op": "mem2_directional_distribution", "lambda": lam, "direction_increment": d, "directions_radians": th}
+            im = impl[i]
+            if err_of(im):
+                ctx.oracle_fail("mem2_directional_distribution raised %s" % im, rep)
+                continue
+            D = unfl(im)
+            want = unfl(mod[j][1:])
+            if any(math.isnan(v) or math.isinf(v) for v in D) or min(D) < 0:
+                ctx.oracle_fail("mem2 distribution is not a non-negative finite array", rep)
+            integ = sum(a * b for a, b in zip(D, d))
+            if abs(integ - 1) > 1e-9:
+                ctx.oracle_fail("mem2 distribution integrates to %r" % integ, rep)
+            sc = max(want)
+            lm = sum(abs(v) for v in lam)
+            badj = [q for q in range(n) if not C.close(D[q], want[q], 1e-10 * (1 + lm), 1e-300, sc)]
+            if badj:
+                q = badj[0]
+                ctx.disagree("mem2 distribution differs from exp(-lambda.T)/normalisation at %d: %r vs %r" % (q, D[q], want[q]),
+                             dict(rep, index=q), is_property_failure=True)
+        elif kind == "est":
+            eval_est(ctx, item, impl, mod)
+        elif kind == "spec":
+            eval_spec(ctx, item, impl)
+
+
+def eval_est(ctx, item, impl, mod):
+    _, i, j, method, sm, mv, n, dirs, shape, entries = item
+    vname = method if sm is None else "%s/%s" % (method, sm)
+    im = impl[i]
+    rep0 = {"op": "estimate_directional_distribution", "method": method, "solution_method": sm,
+            "direction": dirs, "shape": list(shape),
+            "a1": [m[0] for _, m in entries], "b1": [m[1] for _, m in entries],
+            "a2": [m[2] for _, m in entries], "b2": [m[3] for _, m in entries]}
+    ctx.tally("shape-rank-%d" % len(shape))
+    if err_of(im):
+        for _ in entries:
+            ctx.count([vname, n, _[1]])
+        ctx.oracle_fail("%s raised %s: %s" % (vname, im["error"], im["msg"]), rep0, key=None)
+        return
+    if im["shape"] != list(shape) + [n]:
+        ctx.oracle_fail("%s: output shape %s, expected %s" % (vname, im["shape"], list(shape) + [n]), rep0)
+        return
+    out = unfl(im["out"])
+    line = j
+    for e, (mk, m) in enumerate(entries):
+        D = out[e * n:(e + 1) * n]
+        isnan = any(math.isnan(v) for v in m)
+        ctx.count([vname, n, m], (not isnan) and any(m))
+        ctx.tally("%s:%s" % (vname, mk))
+        rep = dict(rep0, entry=e, moments=m, kind=mk)
+        # ---- the model's answer for this entry
+        mo = extra = None
+        robust = True
+        if mv is not None:
+            mo = mod[line]; line += 1
+            if mv == "newton":
+                extra = mod[line]; line += 1
+                robust = (not isnan) and extra[0] not in ("lstsq", "zerodiv") and C.unfx(extra[6]) > 1e-6
+        # ---- validity (the statement of the property on the implementation alone)
+        if isnan:
+            if method == "mem":
+                if not all(math.isnan(v) for v in D):
+                    ctx.tally("mem:nan-moment-not-all-nan")
+            elif any(v != 0 for v in D):
+                ctx.oracle_fail("%s: NaN moments must give the all-zero row" % vname, rep)
+        else:
+            bad = validity(D, n)
+            if bad:
+                ctx.oracle_fail("%s: %s" % (vname, bad), rep)
+        # ---- batch == single.  MEM: bit exact.  The jitted fastmath kernels of MEM2 round differently
+        # depending on the memory alignment of the slice they get (measured <= 2e-15); iterative solvers amplify
+        # that: Newton on a robust path <= 3e-11, scipy <= 3e-5 in the four-moment norm (unrealisable inputs);
+        # on a fragile Newton path / least squares fallback a rounding flips a branch, so nothing is compared.
+        s = im["singles"][e]
+        if err_of(s):
+            ctx.oracle_fail("%s raised on a single entry: %s" % (vname, s), rep)
+        elif not isnan:
+            S = unfl(s)
+            pk = max(abs(v) for v in S) or 1.0
+            dm = max(abs(a - b) for a, b in zip(D, S))
+            if any(math.isnan(v) for v in S) or any(math.isnan(v) for v in D):
+                dm = 0.0 if all((math.isnan(a) and math.isnan(b)) or a == b for a, b in zip(D, S)) else float("inf")
+            if dm != 0:
+                ctx.tally("batch-vs-single:%s:not-bit-identical" % vname)
+            msg = "%s: entry %d of the batch differs from the same entry estimated alone (max diff %r, peak %r)" % (vname, e, dm, pk)
+            if method == "mem":
+                if dm != 0:
+                    ctx.oracle_fail(msg, rep)
+            elif sm == "approximate":
+                if dm > 1e-12 * pk:
+                    ctx.oracle_fail(msg, rep)
+            elif sm == "newton":
+                if mv is not None and robust:
+                    if dm > 1e-7 * pk:
+                        ctx.oracle_fail(msg, rep)
+                else:
+                    ctx.tally("batch-vs-single:newton-fragile-or-lstsq(not compared)")
+            else:
+                mi = moments_of(D, dirs, 360.0 / n); ms = moments_of(S, dirs, 360.0 / n)
+                dd = norm([a - b for a, b in zip(mi, ms)])
+                if dd > 2e-3:
+                    ctx.oracle_fail(msg + " four-moment difference %r" % dd, rep)
+        else:
+            S = unfl(s)
+            if not all((math.isnan(a) and math.isnan(b)) or a == b for a, b in zip(D, S)):
+                ctx.oracle_fail("%s: NaN entry %d differs between batch and single" % (vname, e), rep)
+        # ---- model
+        if mv is None:
+            continue
+        if mo[0] == "U":
+            ctx.tally("%s:model-needs-lstsq" % vname)
+            continue
+        if mo[0] == "R":
+            ctx.tally("%s:model-raises" % vname)
+            continue
+        want = unfl(mo[2:])
+        if isnan or any(math.isnan(v) for v in want):
+            same = all((math.isnan(a) and math.isnan(b)) or a == b for a, b in zip(D, want))
+            if not same and not (method == "mem" and isnan):
+                ctx.disagree("%s: NaN handling differs from the model" % vname, rep)
+            continue
+        if any(math.isnan(v) or math.isinf(v) for v in D):
+            continue                       # already reported by the validity oracle
+        sc = max(abs(v) for v in want)
+        if mv == "mem":
+            tol = 1e-5                     # conditioning is judged by the function-level stream; loose here
+        elif mv == "approx":
+            tol = 1e-9
+        else:
+            st = extra[0]; iters = int(extra[1])
+            ctx.tally("newton-status:" + st)
+            ctx.tally("newton-iterations:%s" % ("0" if iters == 0 else "1-5" if iters <= 5 else "6-20" if iters <= 20 else ">20"))
+            if robust:
+                # measured over 3000 entries: max |impl - model| / peak = 3e-11 whenever margin > 1e-8
+                tol = 1e-7
+                ctx.tally("newton:robust-path(tight compare)")
+            else:
+                # a branch of the iteration is decided within rounding: the float path of the model need not be
+                # the float path of the implementation; only the validity oracle applies
+                ctx.tally("newton:fragile-path(validity only)")
+                continue
+        badj = [q for q in range(n) if not C.close(D[q], want[q], tol, 1e-300, sc)]
+        if badj:
+            q = badj[0]
+            ctx.disagree("%s differs from the model at direction %d: %r vs %r" % (vname, q, D[q], want[q]),
+                         dict(rep, index=q), is_property_failure=(mv != "newton"))
+
+
+def eval_spec(ctx, item, impl):
+    _, i, j, method, sm, n, shape, f, e, ent, meta = item
+    vname = method if sm is None else "%s/%s" % (method, sm)
+    rep = {"op": "FrequencySpectrum.as_frequency_direction_spectrum", "number_of_directions": n, "method": method,
+           "solution_method": sm, "shape": list(shape), "frequency": f, "variance_density": e,
+           "a1": [m[0] for m in ent], "b1": [m[1] for m in ent], "a2": [m[2] for m in ent], "b2": [m[3] for m in ent],
+           "meta": meta}
+    ctx.count(["spec", vname, n, shape, e[:3]])
+    ctx.tally("spectrum-object:%s:lead-rank-%d" % (vname, len(shape) - 1))
+    im = impl[i]
+    if err_of(im):
+        ctx.oracle_fail("as_frequency_direction_spectrum raised %s: %s" % (im["error"], im["msg"]), rep)
+        return
+    if im["cls"] != "FrequencyDirectionSpectrum" or im["shape2d"] != list(shape) + [n]:
+        ctx.oracle_fail("2D spectrum has class %s shape %s" % (im["cls"], im["shape2d"]), rep)
+        return
+    dirs = unfl(im["direction"])
+    if any(abs(a - b) > 1e-9 for a, b in zip(dirs, grid_deg(n))) or len(dirs) != n:
+        ctx.oracle_fail("direction coordinate is not linspace(0,360,N)", rep)
+    if unfl(im["frequency"]) != f:
+        ctx.oracle_fail("frequency coordinate changed", rep)
+    e2 = unfl(im["e2d"])
+    back = unfl(im["e_back"])
+    for q, ev in enumerate(e):
+        row = e2[q * n:(q + 1) * n]
+        if any(math.isnan(v) or v < 0 for v in row):
+            ctx.oracle_fail("2D spectrum has a negative or NaN density", dict(rep, entry=q))
+            break
+        if not C.close(sum(row) * 360.0 / n, ev, 1e-9, 1e-12, ev):
+            ctx.oracle_fail("sum over direction of the 2D spectrum %r != e(f) %r" % (sum(row) * 360.0 / n, ev), dict(rep, entry=q))
+            break
+        if not C.close(back[q], ev, 1e-9, 1e-12, ev):
+            ctx.oracle_fail("integrating the 2D spectrum over direction gives %r, e(f) = %r" % (back[q], ev), dict(rep, entry=q))
+            break
+    m0i = unfl(im["m0_in"]); m0o = unfl(im["m0_out"]); m0b = unfl(im["m0_back"])
+    for a, b, c in zip(m0i, m0o, m0b):
+        if not (C.close(a, b, 1e-9, 1e-12, a) and C.close(a, c, 1e-9, 1e-12, a)):
+            ctx.oracle_fail("total variance not preserved: m0 in %r, 2D %r, back %r" % (a, b, c), rep)
+            break
+    # metadata
+    lead = list(shape[:-1])
+    for k in ("latitude", "longitude", "depth"):
+        got = im["meta"][k]
+        if unfl(got["val"]) != unfl(meta[k]):
+            ctx.oracle_fail("%s not carried over" % k, rep)
+        if len(got["dims"]) != len(lead):
+            ctx.oracle_fail("%s changed dimensions: %s" % (k, got["dims"]), rep)
+    nt = lead[0] if lead else 1
+    if im["meta"]["time"]["val"] != meta["time"][:nt]:
+        ctx.oracle_fail("time not carried over: %s vs %s" % (im["meta"]["time"]["val"], meta["time"][:nt]), rep)
+
+
+def replay(ctx, obj):
+    print("replay files are self-describing: 'input' holds the arguments of the named call (op)")
+
+
 READY = False
 LEVEL_TEXT = ""
 LEVEL_NOTE = ""
-TECHNIQUE = ""
+TECHNIQUE = "Coq proof + extracted-model correspondence + property oracles on the implementation"
+DESIGN_REF = "DESIGN.md section 5 C05"
